@@ -118,7 +118,7 @@ META = {
                    "returned by the public static get_adaptive_transition_points: ordering vs the jumps, range [1,a], "
                    "the three documented tie cases, sum <= a; y symbolic so all tie patterns are explored paths.",
     "bounds": {"quick": "shape functions: exponents {1,2,3,1/2} + symbolic in (0,5]; strategies: m in 2..4, n {2,3,4}, "
-                        "parameter grids as C05 with adaptive_smooth = 1",
+                        "parameter grids as C05 with adaptive_smooth = 1; integer-typed x or y for the four window strategies (m=4, n=4)",
                "thorough": "exponents {1..5,1/2,3/2,1/3} + symbolic; m in 2..6 (adaptive <=5), n {2,3,4,6}"},
     "outside": ["adaptive_smooth != 1 (documentation and code disagree there; excluded by the property)",
                 "long series / large n", "float rounding"],
